@@ -97,6 +97,26 @@ def regen_facts(log):
     return True, ""
 
 
+def regen_goast(log):
+    """Tie C: re-translate the Go declarations into the abstract syntax of Sheens/GoSem.lean
+    (Sheens/Gen/GoAst.lean); the file is only replaced when its content changes, so an unchanged
+    source costs no rebuild."""
+    gen = os.path.join(LEAN, "Sheens", "Gen", "GoAst.lean")
+    with Lock("go"):
+        rc, out = sh(["go", "run", "./go2lean", "-repo", REPO, "-out", gen + ".new"], cwd=GOH, env=GOENV, timeout=600)
+    if rc != 0:
+        log.append("go2lean failed: " + out[-2000:])
+        return False, out
+    new = open(gen + ".new").read()
+    old = open(gen).read() if os.path.exists(gen) else None
+    if new != old:
+        os.replace(gen + ".new", gen)
+    else:
+        os.remove(gen + ".new")
+    m = re.search(r"def unsupported : List String := \[(.*)\]", new)
+    return True, (m.group(1) if m else "")
+
+
 def lake_build(targets, log, timeout=3000):
     t = time.time()
     rc, out = sh(["lake", "build"] + targets, cwd=LEAN, timeout=timeout)
@@ -362,6 +382,8 @@ def run_check(spec, res, workdir):
     with Lock("lake"):
         ok, _ = regen_facts(log)
         res.oblige("factgen:extract", ok, "go/ast fact extraction from the working tree")
+        okt, uns = regen_goast(log)
+        res.oblige("go2lean:translate", okt, "Go declarations translated into Sheens/Gen/GoAst.lean" + ((" (unsupported constructs: %s)" % uns) if okt and uns else ""))
         targets = ["driver"] + spec.get("modules", [])
         ok, out = lake_build(targets, log)
         if not ok:
@@ -473,7 +495,7 @@ def run_check(spec, res, workdir):
         from registry import SIGNATURES
         return any(SIGNATURES.get(k.get("signature")) and SIGNATURES[k["signature"]]("corr", inp, ver)
                    for k in load_known() if k.get("status") == "known")
-    tie_broken = any(not _explained(i, v) for i, v in res.diffs) or any(not ok for n, ok, _ in res.obligations if n.startswith(("facts:", "lean:", "theorem:")))
+    tie_broken = bool(res.extra.get("tr_diffs")) or any(not _explained(i, v) for i, v in res.diffs) or any(not ok for n, ok, _ in res.obligations if n.startswith(("facts:", "lean:", "theorem:")))
     if tie_broken and not res.failing and tier == "quick" and spec.get("runs", {}).get("thorough"):
         t_search = time.time()
         for i, run in enumerate(spec["runs"]["thorough"]):
@@ -503,6 +525,12 @@ def run_check(spec, res, workdir):
         log.append("failing-input search: %d found in %.0fs" % (len(res.failing), time.time() - t_search))
     if res.diffs:
         corr_ok = False
+    trd = res.extra.get("tr_diffs")
+    if res.extra.get("tr_evals"):
+        res.extra.setdefault("coverage", {})["translated_matcher_evaluations"] = res.extra["tr_evals"]
+        res.oblige("translated:matcher-agrees-with-model", not trd,
+                   ("the matcher regenerated from match/match.go (go2lean + GoSem interpreter) and the hand-written model differ on %d case(s); first: %s"
+                    % (len(trd), json.dumps(trd[0])[:600])) if trd else "")
     res.oblige("correspondence:" + pid, corr_ok and not res.diffs,
                "%d disagreements between model and implementation" % len(res.diffs))
 
